@@ -50,6 +50,11 @@ BUILD_STUBS = [
     {'name': 'n8', 'kind': 'part',
      'params': [['h', 'pk', None], ['uid', 'pk', None], ['x', 'pk', 'v']],
      'pre': {'pos_src': ['Hostile()']}},
+    # a tag annotation given as a STRING that names a module global which does
+    # not exist yet when the first configurations are made (forward reference)
+    {'name': 'n9', 'kind': 'func',
+     'params': [['uid', 'pk', None], ['x', 'pk', 'v', {'late': 'LATE_A'}],
+                ['y', 'pk', 'v']]},
     # two callables whose names differ in case style only (name-derived keys)
     {'name': 'CamelNode', 'kind': 'cls',
      'params': [['uid', 'pk', None], ['x', 'pk', 'v']]},
